@@ -209,6 +209,17 @@ CHECKS["C18"] = dict(
     parts=[rapid_part("rapid", "flow/agent/react", "TestC18", 3000, 30000, replay_test="TestC18Replay")],
 )
 
+CHECKS["C09"] = dict(
+    technique="property-based testing (rapid) of concurrent use under the race detector: generated compiled objects (graphs of all kinds, ReAct agent, host multi-agent) x N concurrent callers x mixed paradigms; oracle = single-run reference per call + isolation of per-call data + race reports classified by stack frames",
+    level_text="Generated graphs of every kind (state with handlers and ProcessState, branches, nesting, native paradigm subsets), the ReAct agent (with and without return-directly tools, MessageModifier, streamed model output) and the host multi-agent are each compiled once and then called from 2-8 goroutines x 1-3 calls with distinct inputs, the calling paradigms mixed, a start barrier and yields inside node bodies. Oracle: every call's result (and executed (node,input) multiset, model histories, tool invocations) equals what the reference model / reference loop gives for that call alone; a per-call callback handler sees exactly its own call; no state object is seen by two calls; everything is built with -race and a race report whose accesses lie in non-harness frames of the eino module is a violation (reports confined to harness frames make the run inconclusive).",
+    level_note="The race detector judges executed interleavings only; absence of a report is weak evidence. The Go scheduler is not owned.",
+    rule="rapid draws the object, worker and call counts, inputs and paradigms; non-trivial = >= 3 calls on an object with state, branches or nesting (graphs) / on an agent with a non-empty script; distinct = FNV-1a of case JSON",
+    assumptions=GRAPH_ASSUME,
+    parts=[rapid_part("graphs", "compose", "TestC09", 600, 5000, race=True, replay_test="TestC09Replay", replay_reps=5),
+           rapid_part("react", "flow/agent/react", "TestC09React", 400, 3000, race=True, replay_test="TestC09ReactReplay", replay_reps=5),
+           rapid_part("host", "flow/agent/multiagent/host", "TestC09Host", 400, 3000, race=True, replay_test="TestC09HostReplay", replay_reps=5)],
+)
+
 # properties not claimed (with reason); everything else not in CHECKS is "not built yet"
 NOT_APPLICABLE = {}
 
